@@ -47,3 +47,14 @@ CHECKSUM_ITEM = dict(kind="fn", file="src/wal/config.rs", path="fn checksum64",
     loops={0: dict(kind="for", invariant=[("", "hash == fnv1a(data@.subrange(0, i as int))")])},
     hints=[dict(after="let b = data[i];", text="        proof { assert(data@.subrange(0, i + 1).drop_last() =~= data@.subrange(0, i as int)); }"),
            dict(before="    hash\n}", text="    proof { assert(data@.subrange(0, data@.len() as int) =~= data@); }")])
+
+
+# block.rs decode_metadata (validated decode of an entry header), proved against the rkyv stand-ins of specs/prelude/rkyv.rs
+DECODE_CALL_RULES = [
+    dict(rule="R5", kind="re", pat=r"decode_metadata\(&(\w+)\[\.\.\]\)", repl=r"decode_metadata(\1.as_slice())", min=0, why="&aligned[..] -> AlignedVec::as_slice()"),
+]
+DECODE_ITEM = dict(kind="fn", file="src/wal/block.rs", path="fn decode_metadata",
+    rules=[dict(rule="R5", kind="lit", old="rkyv::check_archived_root::<Metadata>(bytes).ok()?", new="(match rkyv_check_archived_root_metadata(bytes) { Ok(a) => a, Err(_) => return None })", why="check_archived_root(..).ok()? -> explicit match on the validating stub"),
+           dict(rule="R5", kind="lit", old="archived.deserialize(&mut rkyv::Infallible).ok()", new="(match archived.deserialize_infallible() { Ok(m) => Some(m), Err(_) => None })", why="deserialize(&mut Infallible).ok() -> stub + match")],
+    ensures=[("C11:a_header_is_decoded_only_after_it_passed_validation", "valid_archive(bytes@) ==> ret == Some(spec_decode(bytes@))"),
+             ("C11:a_header_is_decoded_only_after_it_passed_validation", "!valid_archive(bytes@) ==> ret is None")])
